@@ -854,6 +854,47 @@ def run_pair(sh, np, nt, O, frclim, routes, i):
             elif am1.tobytes() != am0.tobytes():
                 sh.count("cell:calcAM-inplace-update-changed-answer")
 
+    # ---- history on a caller-supplied solver (the `fs` argument): one SolveUnc made with
+    # a time step serves a frequency solve, a transient run and a frequency solve again;
+    # apparent mass is a property of the structure, not of what the solver did before
+    if i % 3 != 1:
+        import pyyeti.ode as ode_
+        for f, name in ((fs_, "src"), (fl_, "load")):
+            if f["form"] not in ("phys-drm", "modal-drm", "cb-drm"):
+                continue
+            args = arg_of(f)
+            want = ref.SAM if name == "src" else ref.LAM
+            tol = ref.tolS if name == "src" else ref.tolL
+            hh = 1.0 / (20.0 * float(np.abs(freq).max() or 1.0))
+            try:
+                with warnings.catch_warnings():
+                    warnings.simplefilter("ignore")
+                    with np.errstate(all="ignore"):
+                        solver = routes.orig[1](args[0], args[1], args[2], hh, pre_eig=True)
+                        am_a = np.array(frclim.calcAM(args, freq.copy(), solver), copy=True)
+                        nd = np.asarray(args[2]).shape[0]
+                        ft = core.rng(sh.seed, "C15", "fs-hist", i).standard_normal(
+                            (nd, 24))
+                        sol_t = solver.tsolve(ft)
+                        am_b = np.array(frclim.calcAM(args, freq.copy(), solver), copy=True)
+                        solver.tsolve(ft[:, :5])
+                        am_c = np.asarray(frclim.calcAM(args, freq.copy(), solver))
+            except Exception as e:
+                sh.violation("exception:calcAM-fs-history", case,
+                             {"exc": repr(e)[:400], "which": name, "form": f["form"]}, tags)
+                continue
+            close3("calcAM-fs-vs-inv-accelerance", am_a, want, tol)
+            sh.count("mon:calcAM-fs-history")
+            sh.count("cell:calcAM-fs-history:" + ("complex-modes" if not
+                                                  solver.unc else "uncoupled"))
+            for lab, am_x in (("after-tsolve", am_b), ("after-second-tsolve", am_c)):
+                if am_x.shape != am_a.shape or am_x.tobytes() != am_a.tobytes():
+                    sh.violation("calcAM-fs-history", case,
+                                 {"which": name, "form": f["form"], "when": lab,
+                                  "maxdiff": float(np.nanmax(np.abs(am_x - am_a)))
+                                  if am_x.shape == am_a.shape else None}, tags)
+                    break
+
     # ---- low-frequency limit: AM -> RB^T M RB for a statically determinate interface ----
     if p["determinate"]:
         from vf.oracles import nt_coupled
@@ -919,7 +960,7 @@ def run_shard(sh, params):
         routes.restore()
 
 
-MANDATORY_MON = ["calcAM-inplace-update", "AM-zero-hz-vs-rigid-mass", "A-vs-coupled", "F-vs-coupled", "SAM-vs-inv-accelerance",
+MANDATORY_MON = ["calcAM-inplace-update", "calcAM-fs-history", "AM-zero-hz-vs-rigid-mass", "A-vs-coupled", "F-vs-coupled", "SAM-vs-inv-accelerance",
                  "LAM-vs-inv-accelerance", "TAM-eq-SAM-plus-LAM", "R-ratio",
                  "calcAM-pv-vs-inv-accelerance", "calcAM-drm-vs-inv-accelerance",
                  "AM-lowfreq-vs-rigid-mass"]
